@@ -51,6 +51,8 @@ STUB = ["values are random arrays, not PML interface fields", "init_state runs w
 ASSUMPTIONS = [
     "saved steps are start, start+k, ... and the final step T-1 (so that every t >= start has two enclosing saved steps)",
     "saved steps must be returned bit-exactly (also through a widening dtype conversion); interpolated steps within 32 ulp of the input dtype relative to the history maximum",
+    "interpolated reads are judged only in configurations whose saved steps all read back correctly (a wrong record is reported once, as saved_step_mismatch); "
+    "second-run monitors fire only where the first run was right (a genuine stale-record leak)",
     "reads at t < start are outside the statement and not compared",
 ]
 TECHNIQUE = "deterministic simulation of a lossy store: complete enumeration of (k, start) per (T, pipeline), seeded write histories, multiple read orders and a second-run overwrite against a dict + linear-interpolation model"
@@ -291,6 +293,8 @@ def execute(spec):
             fault("restarted_sweep")
             if spec["conv_dtype"] and spec["conv_dtype"] != spec["in_dtype"]:
                 fault("dtype_conversion")
+            bad_saved_cfg = False  # wrong records make the interpolation between them meaningless: reported once, as saved_step_mismatch
+            pending = []
             for run, (hist, reads, kinds, res) in enumerate(((hist_a, reads_a, read_kind, res_a), (hist_b, reads_b, read_kind, res_b))):
                 outs = {nm: np.asarray(v) for nm, v in res[ci][1].items()}
                 stats["writes"] += T
@@ -311,6 +315,8 @@ def execute(spec):
                         if saved:
                             stats["probe_saved_reads"] = stats.get("probe_saved_reads", 0) + 1
                             exact = np.array_equal(got, hist[nm][t])
+                            if not exact:
+                                bad_saved_cfg = True
                             if not exact and run == 0:
                                 bad_first.add((nm, t))
                             if not exact and (run == 0 or (nm, t) not in bad_first):
@@ -323,14 +329,14 @@ def execute(spec):
                             err = float(np.max(np.abs(got.astype(want.dtype) - want))) / scale[nm]
                             if not np.isfinite(err):
                                 err = 1e300
-                            resid["interpolation"] = max(resid.get("interpolation", 0.0), err)
+                            pending.append(("resid", err))
                             if err > 32 * eps and run == 0:
                                 bad_first.add((nm, t))
                             if err > 32 * eps and (run == 0 or (nm, t) not in bad_first):
                                 sv = saved_steps(T, k, start)
                                 base_mon = "interpolated_value_not_finite" if err >= 1e300 else "interpolation_mismatch"
-                                V(base_mon if run == 0 else "second_run_" + base_mon, k=k, start=start, t=t, key=nm, read=kinds[ri], rel_err=err, tolerance=32 * eps, run=run + 1,
-                                  enclosing=[max(x for x in sv if x < t), min(x for x in sv if x > t)])
+                                pending.append((base_mon if run == 0 else "second_run_" + base_mon, dict(k=k, start=start, t=t, key=nm, read=kinds[ri], rel_err=err, tolerance=32 * eps, run=run + 1,
+                                                                                                        enclosing=[max(x for x in sv if x < t), min(x for x in sv if x > t)])))
                         # the same t read twice (different read orders) must give the same value
                         kk = (nm, t)
                         if kk in first_value:
@@ -340,6 +346,14 @@ def execute(spec):
                             first_value[kk] = got
                 for nm in sorted(outs):
                     digest.update(np.ascontiguousarray(outs[nm]).tobytes())
+            if bad_saved_cfg:
+                stats["interpolation_not_judged_bad_records"] = stats.get("interpolation_not_judged_bad_records", 0) + sum(1 for m, _ in pending if m != "resid")
+            else:
+                for m, kw in pending:
+                    if m == "resid":
+                        resid["interpolation"] = max(resid.get("interpolation", 0.0), kw)
+                    else:
+                        V(m, **kw)
     if np.issubdtype(in_dt, np.complexfloating):
         stats["probe_complex"] = 1
     stats["probe_pipeline_" + ("_".join(spec["pipeline"]) or "empty")] = 1
